@@ -945,6 +945,9 @@ func (ro *RedisOutput) sendCmdsBatch(replayWait usync.WaitCloser, conn client.Re
 		delayNs    int64
 	}
 	var pipeline chan *cmdBatcher
+	// pipeline mode : number of dispatched batches whose replies have not been read yet
+	var inflight atomic.Int64
+	acked := make(chan struct{}, 1)
 
 	if isPipeline {
 		pipeline = make(chan *cmdBatcher, 2)
@@ -981,6 +984,11 @@ func (ro *RedisOutput) sendCmdsBatch(replayWait usync.WaitCloser, conn client.Re
 				succCounter.Add(float64(bat.cmdCounter), ro.cfg.InputName)
 				batchSendCounter.Add(1, ro.cfg.InputName, transactionLabel, "ok")
 				ackOffsetGauge.Set(float64(bat.offset), ro.cfg.InputName)
+				inflight.Add(-1)
+				select {
+				case acked <- struct{}{}:
+				default:
+				}
 			}
 		}, func(i interface{}) { replayWait.Close(fmt.Errorf("panic : %v", i)) })
 	}
@@ -1013,8 +1021,11 @@ func (ro *RedisOutput) sendCmdsBatch(replayWait usync.WaitCloser, conn client.Re
 			}
 		}
 
-		// cluster "transaction": send the checkpoint after the batch succeeded, see above
-		deferredCP := clusterTxn && shouldInTransaction && shouldUpdateCP && ro.cfg.EnableResumeFromBreakPoint
+		// A batch that is not atomic gets its checkpoint after the replies of the batch were checked: the
+		// cluster "transaction" (see above) and every non-transactional batch, where a command may be
+		// answered with an error (e.g. TRYAGAIN during a slot migration) while a checkpoint sent in the
+		// same batch is stored; the restart after that error would resume behind the command.
+		deferredCP := shouldUpdateCP && ro.cfg.EnableResumeFromBreakPoint && (clusterTxn || !shouldInTransaction)
 		if shouldUpdateCP && !deferredCP {
 			if ro.cfg.EnableResumeFromBreakPoint {
 				// an offset without its run id is not a usable checkpoint (the next start ignores it and
@@ -1028,24 +1039,30 @@ func (ro *RedisOutput) sendCmdsBatch(replayWait usync.WaitCloser, conn client.Re
 				ro.cpGuard.Unlock()
 			}
 		}
+		sendCP := func() error {
+			_, err := conn.Do("hset", checkpointKv.Key, checkpointKv.RunIdKey(), runId, checkpointKv.VersionKey(), config.Version,
+				checkpointKv.OffsetKey(), lastOffset)
+			return err
+		}
 
 		if shouldInTransaction {
 			batcher.Put("exec")
 		}
-		if batcher.Len() == 0 {
+		if batcher.Len() == 0 && !deferredCP {
 			return nil
 		}
 
 		var err error
-		if isPipeline {
-			err = batcher.Dispatch()
-		} else {
-			_, err = batcher.Exec()
+		if batcher.Len() > 0 || len(cmdQueue) > 0 { // an empty batcher of a filled queue reports why it refused the commands
+			if isPipeline {
+				err = batcher.Dispatch()
+			} else {
+				_, err = batcher.Exec()
+			}
 		}
 
-		if err == nil && deferredCP {
-			_, err = conn.Do("hset", checkpointKv.Key, checkpointKv.RunIdKey(), runId, checkpointKv.VersionKey(), config.Version,
-				checkpointKv.OffsetKey(), lastOffset)
+		if err == nil && deferredCP && !isPipeline {
+			err = sendCP()
 		}
 		if err != nil {
 			ro.logger.Errorf("exec error %v", err)
@@ -1059,20 +1076,40 @@ func (ro *RedisOutput) sendCmdsBatch(replayWait usync.WaitCloser, conn client.Re
 		ro.sendCounterAdd(uint(cmdCounter))
 
 		if isPipeline {
-			select {
-			case pipeline <- &cmdBatcher{
-				bt:         batcher,
-				cmdCounter: cmdCounter,
-				offset:     uint(lastOffset),
-				delayNs:    delayNs,
-			}:
-			case <-replayWait.Context().Done():
-				// the batch is on the wire already: it must not stay queued, or the next flush of
-				// the ending sender dispatches it a second time (a closer cancelled through its
-				// parent context reports no error yet, so the caller would go on)
+			if batcher.Len() > 0 {
+				inflight.Add(1)
+				select {
+				case pipeline <- &cmdBatcher{
+					bt:         batcher,
+					cmdCounter: cmdCounter,
+					offset:     uint(lastOffset),
+					delayNs:    delayNs,
+				}:
+				case <-replayWait.Context().Done():
+					// the batch is on the wire already: it must not stay queued, or the next flush of
+					// the ending sender dispatches it a second time (a closer cancelled through its
+					// parent context reports no error yet, so the caller would go on)
+					cmdQueue = cmdQueue[:0]
+					queuedByteSize = 0
+					return replayWait.Error()
+				}
+			}
+			if deferredCP {
+				// dispatched batches never stay queued, see above
 				cmdQueue = cmdQueue[:0]
 				queuedByteSize = 0
-				return replayWait.Error()
+				for inflight.Load() > 0 {
+					select {
+					case <-acked:
+					case <-replayWait.Context().Done():
+						// nobody reads the replies any more: no checkpoint
+						return replayWait.Error()
+					}
+				}
+				if err := sendCP(); err != nil {
+					ro.logger.Errorf("exec error %v", err)
+					return err
+				}
 			}
 		} else {
 			if delayNs > 0 {
